@@ -1690,7 +1690,7 @@ var c04Comp = []string{"ns", "MB", "B", "sec", "op", "s", "bytes", "xns", "nsx",
 var c04Sep = []string{"/", "*", "-", " ", "\t", "\u00a0", "\u2028", "\u3000", "\u0085", "\v", "//", "*/", "/*", "\u1680", "\n", "\u200b", "\u2003"}
 
 func genC04(o *hx.Out, r *hx.Rng, tier string, replay string) error {
-	o.Rule = "units built from components {ns MB B sec op s bytes xns nsx MBps µs é nsMB '' invalid-UTF-8 …} joined by / * - and ASCII/Unicode white space (exhaustive over a small alphabet up to a bound, then random longer ones, plus the fast-path literals and near misses), each with values from {0,-0,±Inf,NaN,subnormal,max,…} and random bit patterns; observed: benchunit.Tidy (twice), benchfmt.Reader Values, UnitMetadataMap.Get, .unit filters; plus sequences of 2-4 results of one metric written under its written and its base unit in every order (with unit lines in between) read through ONE Reader and judged by ONE Filter (Match then Apply), each result independently; the same with .unit regexps and value lists (.unit:/re/, .unit:(a OR /re/ ...)) on lines of 2-4 measurements where one measurement is named only by its written unit and another by its base unit (regexp.MatchString recorded per (pattern, unit)); and benchunit.Tidy called directly in order within this process, first of all (empty memo table): a unit whose base form still contains ns/MB and then that base form (every order, repeated; fresh units through a unique denominator token), units with ns/MB directly after a letter whose UTF-8 encoding ends in 0x85/0xA0, and ns/MB after multi-byte white space; and units with MORE THAN FOUR normalisable numerator components (5-8, thorough 5-12 ns/MB numerator tokens mixed with other words, -suffix parts, denominators incl. ns/MB that must stay; base form known by construction), each through Tidy twice + reader + metadata + filters, through ONE reader next to the same metric written in base units, and through direct Tidy calls unit/base/unit; and texts LONGER than the line scanner's 4096-byte buffer (lines of one constant length L, a run of 4096/L+ lines of one unit crossing the boundary, then lines with a different unit of EQUAL written length in the same field position - e.g. ns/op then us/op, ms/op, 'B/op ' - and further lines after; whole-text and chunked io.Readers; 1-2 measurements per line; Unit lines) through ONE Reader and ONE Filter, every record judged when delivered AND the caller's retained copies (Result.Clone before/after Apply, *UnitMetadata) re-read after the whole text was scanned.; and units whose scale 10^(6#MB-9#ns), or a prefix of it in token order, is outside the binary64 range (30-45 ns, 45-62 MB numerator components around the thresholds 35/36 ns and 52 MB; sequential, interleaved, mixed) with every special value and finite values whose real product is representable (tag c04_factor_out_of_range decided from the input: simulation of the accumulated factor + exact comparison with the real product); GetBetter on an empty map and GetBetter/GetAssumption after 'Unit u better=.. assume=..' for u, its base unit and the units with built-in defaults (ns/op sec/op MB/s B/s MB/op B/op allocs/op); benchstat's tables (unit, assumption, number of values) over results of one metric written under both units with 'Unit .. assume=' lines naming either. non-trivial = the unit is rewritten; distinct by (unit, value bits)"
+	o.Rule = "units built from components {ns MB B sec op s bytes xns nsx MBps µs é nsMB '' invalid-UTF-8 …} joined by / * - and ASCII/Unicode white space (exhaustive over a small alphabet up to a bound, then random longer ones, plus the fast-path literals and near misses), each with values from {0,-0,±Inf,NaN,subnormal,max,…} and random bit patterns; observed: benchunit.Tidy (twice), benchfmt.Reader Values, UnitMetadataMap.Get, .unit filters; plus sequences of 2-4 results of one metric written under its written and its base unit in every order (with unit lines in between) read through ONE Reader and judged by ONE Filter (Match then Apply), each result independently; the same with .unit regexps and value lists (.unit:/re/, .unit:(a OR /re/ ...)) on lines of 2-4 measurements where one measurement is named only by its written unit and another by its base unit (regexp.MatchString recorded per (pattern, unit)); and benchunit.Tidy called directly in order within this process, first of all (empty memo table): a unit whose base form still contains ns/MB and then that base form (every order, repeated; fresh units through a unique denominator token), units with ns/MB directly after a letter whose UTF-8 encoding ends in 0x85/0xA0, and ns/MB after multi-byte white space; and units with MORE THAN FOUR normalisable numerator components (5-8, thorough 5-12 ns/MB numerator tokens mixed with other words, -suffix parts, denominators incl. ns/MB that must stay; base form known by construction), each through Tidy twice + reader + metadata + filters, through ONE reader next to the same metric written in base units, and through direct Tidy calls unit/base/unit; and texts LONGER than the line scanner's 4096-byte buffer (lines of one constant length L, a run of 4096/L+ lines of one unit crossing the boundary, then lines with a different unit of EQUAL written length in the same field position - e.g. ns/op then us/op, ms/op, 'B/op ' - and further lines after; whole-text and chunked io.Readers; 1-2 measurements per line; Unit lines) through ONE Reader and ONE Filter, every record judged when delivered AND the caller's retained copies (Result.Clone before/after Apply, *UnitMetadata) re-read after the whole text was scanned.; and units whose scale 10^(6#MB-9#ns), or a prefix of it in token order, is outside the binary64 range (30-45 ns, 45-62 MB numerator components around the thresholds 35/36 ns and 52 MB; sequential, interleaved, mixed) with every special value and finite values whose real product is representable (tag c04_factor_out_of_range decided from the input: simulation of the accumulated factor + exact comparison with the real product); GetBetter on an empty map and GetBetter/GetAssumption after 'Unit u better=.. assume=..' for u, its base unit and the units with built-in defaults (ns/op sec/op MB/s B/s MB/op B/op allocs/op); benchstat's tables (unit, assumption, number of values) over results of one metric written under both units with 'Unit .. assume=' lines naming either. non-trivial = the unit is rewritten; distinct by (unit, value bits); CONCURRENT (case kind 7, tag concurrent): batches of 4-6 fresh units (every second one of 1500-3500 components, 10-25 KB; normalised tokens first / last / at both ends / only in the denominator or inside words; at most three numerator ns/MB tokens) met by 8-16 goroutines released by one spin barrier per round, goroutine g delayed by g x {0, 40, 300, 3000} spin iterations, all on the SAME unseen unit (in every second batch on two unseen units at a time), most through benchunit.Tidy, every 3rd/4th through its own benchfmt.Reader, each asking a second time at once; every batch run in cmd/c04race as processes of its own, plain at GOMAXPROCS 4, 8, 16 and built with -race at 4, 8; the case lists every distinct answer any caller got per unit, whether a process died / a caller panicked, and whether the race detector reported"
 	// table case: the rune class and float constants the model is evaluated with
 	o.Add(hx.L(hx.I(0), hx.List(unicodeRanges(unicode.IsSpace)), hx.F64(1e-9), hx.F64(1e6), hx.F64(1e9)),
 		map[string]string{"kind": "tables"}, "tables", false)
@@ -1819,6 +1819,14 @@ func genC04(o *hx.Out, r *hx.Rng, tier string, replay string) error {
 		if err := c04One(o, r, u, c04Value(r), "random"); err != nil {
 			return err
 		}
+	}
+	// concurrent callers (own stream, split last; processes of their own)
+	nconc := 6
+	if tier == "thorough" {
+		nconc = 40
+	}
+	if err := c04GenConcurrent(o, r.Split(), nconc); err != nil {
+		return err
 	}
 	return nil
 }
